@@ -31,11 +31,15 @@ variable is not packed (`scale_factor` / `add_offset`) -/
 def staleDtype (v : VarEnc) : Bool :=
   v.encDtype.isSome && (npDtype v.encDtype != v.dtype) && !v.hasScale && !v.hasOffset
 
+/-- the three identity tests are about three different objects: at most one of them holds -/
+def _root_.Gen.AttrOps.Exclusive {A : Type} (a : AttrOps A) : Prop :=
+  ∀ v, (a.isNone v = true → a.isTrue v = false ∧ a.isFalse v = false) ∧ (a.isTrue v = true → a.isFalse v = false)
+
 /-- **`save_ds` as translated, in closed form** — for every engine string, attribute type, variable list:
 one writer call, on the name with the extension; joblib → `joblib.dump`, zarr → `to_zarr`, anything else →
 `to_netcdf(engine=engine)`; the attributes are rewritten only for engines other than joblib / zarr; the stale-dtype rule
 and `invalid_netcdf` (set for complex data unless the caller gave it) only concern the netCDF writer -/
-theorem saveDs_spec {A : Type} (a : AttrOps A) (ext : String → String → String) (name engine : String)
+theorem saveDs_spec {A : Type} (a : AttrOps A) (hx : a.Exclusive) (ext : String → String → String) (name engine : String)
     (attrs : List (String × A)) (vars : List VarEnc) (kw : Option Bool) :
     Gen.saveDs a ext name engine attrs vars kw = some
       { writer := if engine = "joblib" then .joblibDump else if engine = "zarr" then .toZarr
@@ -59,7 +63,8 @@ theorem saveDs_spec {A : Type} (a : AttrOps A) (ext : String → String → Stri
          apply List.map_congr_left
          intro kv _
          simp only [attrRewrite]
-         cases a.isNone kv.2 <;> cases a.isTrue kv.2 <;> cases a.isFalse kv.2 <;> simp)
+         have hv := hx kv.2
+         cases h1 : a.isNone kv.2 <;> cases h2 : a.isTrue kv.2 <;> cases h3 : a.isFalse kv.2 <;> simp_all)
 
 /-- the attribute values of the model as Python objects: `is` is identity with the singletons, `==` also holds for the
 numbers equal to a bool -/
@@ -71,6 +76,9 @@ def attrOps : AttrOps Attr where
   eqTrue := fun v => v == .bool true || v == .int 1 || v == .num "1.0"
   eqFalse := fun v => v == .bool false || v == .int 0 || v == .num "0.0" || v == .num "-0.0"
   str := .str
+
+theorem attrOps_exclusive : attrOps.Exclusive := by
+  intro v; cases v <;> simp [attrOps]
 
 theorem attrRewrite_coerceAttr (v : Attr) : attrRewrite attrOps v = coerceAttr v := by
   cases v with
@@ -85,7 +93,7 @@ theorem saveDs_attrs_refines (ext : String → String → String) (name : String
     (vars : List VarEnc) (kw : Option Bool) :
     ∃ c, Gen.saveDs attrOps ext name e.key d.attrs vars kw = some c ∧ c.attrs = (coerceAttrs e d).attrs ∧
       c.path = ext name e.key := by
-  refine ⟨_, saveDs_spec _ _ _ _ _ _ _, ?_, rfl⟩
+  refine ⟨_, saveDs_spec _ attrOps_exclusive _ _ _ _ _ _, ?_, rfl⟩
   obtain ⟨⟨h1, h2, h3, h4⟩, _, h⟩ := c14_attr_rule
   rw [(h e d).2.2]
   have hm : (d.attrs.map fun kv => (kv.1, attrRewrite attrOps kv.2)) = d.attrs.map fun kv => (kv.1, coerceAttr kv.2) := by
@@ -100,14 +108,14 @@ theorem saveDs_keeps_numbers (ext : String → String → String) (name engine :
       c.attrs = if engine = "joblib" ∨ engine = "zarr"
         then [("a", .int 1), ("b", .int 0), ("c", .num "1.0"), ("d", .none), ("e", .bool true), ("f", .bool false)]
         else [("a", .int 1), ("b", .int 0), ("c", .num "1.0"), ("d", .str "None"), ("e", .str "True"), ("f", .str "False")] := by
-  refine ⟨_, saveDs_spec _ _ _ _ _ _ _, ?_⟩
+  refine ⟨_, saveDs_spec _ attrOps_exclusive _ _ _ _ _ _, ?_⟩
   simp only []
   split
   · rfl
   · simp [attrRewrite, attrOps]
 
 /-- engine dispatch at the four engines, and D20's rule at the netCDF engines -/
-theorem saveDs_writers {A : Type} (a : AttrOps A) (ext : String → String → String) (name : String)
+theorem saveDs_writers {A : Type} (a : AttrOps A) (hx : a.Exclusive) (ext : String → String → String) (name : String)
     (attrs : List (String × A)) (vars : List VarEnc) (kw : Option Bool) :
     ((Gen.saveDs a ext name "joblib" attrs vars kw).map (·.writer) = some .joblibDump) ∧
     ((Gen.saveDs a ext name "zarr" attrs vars kw).map (·.writer) = some .toZarr) ∧
@@ -117,7 +125,7 @@ theorem saveDs_writers {A : Type} (a : AttrOps A) (ext : String → String → S
         some (.toNetcdf "netcdf4" (if vars.any (·.isComplex) then some (kw.getD true) else kw))) ∧
     ((Gen.saveDs a ext name "h5netcdf" attrs vars kw).map (·.dropDtype) = some (vars.map staleDtype)) ∧
     ((Gen.saveDs a ext name "joblib" attrs vars kw).map (·.dropDtype) = some (vars.map fun _ => false)) := by
-  simp [saveDs_spec]
+  simp [saveDs_spec a hx]
 
 -- non-vacuity of the stale-dtype rule: a grown string coordinate and a packed variable
 example : [({ encDtype := some "<U1", dtype := "<U4" } : VarEnc), { encDtype := some "int16", dtype := "float64", hasScale := true },
@@ -140,13 +148,13 @@ theorem loadDs_spec {C : Type} (ext : String → String → String) (ex : String
                     else .openDataset engine (if engine = "h5netcdf" then some "netcdf4" else none),
                   ext name engine, true, ltm.isNone && chunks.isNone⟩ := by
   simp only [Gen.loadDs, Gen.Default.loadDs]
-  by_cases h1 : (!ex (ext name engine) && cn) = true
-  · simp [h1]
-  · simp only [h1, Bool.false_eq_true, if_false]
-    by_cases hj : engine = "joblib"
-    · simp [hj]
-    · simp only [hj, decide_false, Bool.false_eq_true, if_false]
-      rcases ltm with _ | _ | _ <;> cases chunks <;> by_cases hz : engine = "zarr" <;> simp [hz]
+  generalize ex (ext name engine) = b
+  -- by cases on everything the body tests (so the order / nesting of the tests in the source does not matter)
+  by_cases hj : engine = "joblib"
+  · subst hj; cases b <;> cases cn <;> simp
+  · by_cases hz : engine = "zarr"
+    · subst hz; cases b <;> cases cn <;> rcases ltm with _ | _ | _ <;> cases chunks <;> simp
+    · cases b <;> cases cn <;> rcases ltm with _ | _ | _ <;> cases chunks <;> simp [hj, hz]
 
 /-- **`create_new`**: the empty dataset is answered exactly when `create_new` is set and the file is absent -/
 theorem c14_load_create_new {C : Type} (ext : String → String → String) (ex : String → Bool) (name engine : String)
@@ -175,12 +183,12 @@ theorem c14_load_existing_is_read {C : Type} (ext : String → String → String
 
 /-- **one path for save and load, on the translated bodies**: whatever the engine string and the options, the path the
 writer of `save_ds` is given and the path any reader of `load_ds` is given are the same `auto_add_extension(name, engine)` -/
-theorem c14_save_load_same_path {A C : Type} (a : AttrOps A) (ext : String → String → String) (ex : String → Bool)
+theorem c14_save_load_same_path {A C : Type} (a : AttrOps A) (hx : a.Exclusive) (ext : String → String → String) (ex : String → Bool)
     (name engine : String) (attrs : List (String × A)) (vars : List VarEnc) (kw ltm : Option Bool) (cn : Bool)
     (chunks : Option C) :
     (Gen.saveDs a ext name engine attrs vars kw).map (·.path) = some (ext name engine) ∧
     ∀ c, Gen.loadDs ext ex name engine ltm cn chunks = .read c → c.path = ext name engine := by
-  refine ⟨by rw [saveDs_spec]; rfl, ?_⟩
+  refine ⟨by rw [saveDs_spec a hx]; rfl, ?_⟩
   intro c h
   rw [loadDs_spec] at h
   split at h
@@ -204,7 +212,7 @@ theorem c14_translated_paths (ex : String → Bool) (name : String) (e : Engine)
     (Gen.saveDs attrOps extOfKey name e.key d.attrs vars kw).map (·.path) = some (savePath name e) ∧
     ∀ c, Gen.loadDs extOfKey ex name e.key ltm cn chunks = .read c → c.path = loadPath name e := by
   obtain ⟨h1, h2, _⟩ := Harvest.c05_name_consistent name e
-  obtain ⟨hs, hl⟩ := c14_save_load_same_path attrOps extOfKey ex name e.key d.attrs vars kw ltm cn chunks
+  obtain ⟨hs, hl⟩ := c14_save_load_same_path attrOps attrOps_exclusive extOfKey ex name e.key d.attrs vars kw ltm cn chunks
   refine ⟨by rw [hs, h1, extOfKey, engineOfKey_key], ?_⟩
   intro c hc
   rw [hl c hc, h2, extOfKey, engineOfKey_key]
